@@ -42,158 +42,181 @@ func sigString(fn *ssa.Function) string {
 	return types.TypeString(fn.Signature, func(p *types.Package) string { return p.Name() })
 }
 
-var roleDefs = map[string]roleDef{
-	// ---- announce ----
-	"lru.update": {"announce", "stringLRU.update", func(c *Ctx, fns []*Fn) *ssa.Function {
-		return uniqueFn(fns, func(f *Fn) bool { return hasCall(c, f.SSA, Call("container/list.List).PushFront")) })
-	}},
-	"lru.remove": {"announce", "stringLRU.remove", func(c *Ctx, fns []*Fn) *ssa.Function {
-		return uniqueFn(fns, func(f *Fn) bool {
-			return f.SSA.Signature.Recv() != nil && hasCall(c, f.SSA, Call("container/list.List).Remove")) && !hasCall(c, f.SSA, Call("container/list.List).PushFront")) &&
-				!hasCall(c, f.SSA, Call("sync.Mutex).Lock"))
-		})
-	}},
-	"lru.new": {"announce", "newStringLRU", func(c *Ctx, fns []*Fn) *ssa.Function {
-		return uniqueFn(fns, func(f *Fn) bool { return hasCall(c, f.SSA, Call("container/list.New")) })
-	}},
-	"announce.deliver": {"announce", "Receiver.handleAnnounce", func(c *Ctx, fns []*Fn) *ssa.Function {
-		return uniqueFn(fns, func(f *Fn) bool {
-			found := false
-			instrs(f.SSA, func(in ssa.Instruction) {
-				if s, ok := in.(*ssa.Select); ok {
-					for _, st := range s.States {
-						if st.Send != nil && strings.HasSuffix(st.Send.Type().String(), "announce.Announce") {
-							found = true
+var roleDefs map[string]roleDef
+
+func init() {
+	roleDefs = map[string]roleDef{
+		// ---- announce ----
+		"lru.update": {"announce", "stringLRU.update", func(c *Ctx, fns []*Fn) *ssa.Function {
+			return uniqueFn(fns, func(f *Fn) bool { return hasCall(c, f.SSA, Call("container/list.List).PushFront")) })
+		}},
+		"lru.remove": {"announce", "stringLRU.remove", func(c *Ctx, fns []*Fn) *ssa.Function {
+			return uniqueFn(fns, func(f *Fn) bool {
+				return f.SSA.Signature.Recv() != nil && hasCall(c, f.SSA, Call("container/list.List).Remove")) && !hasCall(c, f.SSA, Call("container/list.List).PushFront")) &&
+					!hasCall(c, f.SSA, Call("sync.Mutex).Lock"))
+			})
+		}},
+		"lru.new": {"announce", "newStringLRU", func(c *Ctx, fns []*Fn) *ssa.Function {
+			return uniqueFn(fns, func(f *Fn) bool { return hasCall(c, f.SSA, Call("container/list.New")) })
+		}},
+		"announce.deliver": {"announce", "Receiver.handleAnnounce", func(c *Ctx, fns []*Fn) *ssa.Function {
+			return uniqueFn(fns, func(f *Fn) bool {
+				found := false
+				instrs(f.SSA, func(in ssa.Instruction) {
+					if s, ok := in.(*ssa.Select); ok {
+						for _, st := range s.States {
+							if st.Send != nil && strings.HasSuffix(st.Send.Type().String(), "announce.Announce") {
+								found = true
+							}
+						}
+					}
+				})
+				return found
+			})
+		}},
+		// ---- dagsync ----
+		"latest.set": {"dagsync", "latestSyncHandler.setLatestSync", func(c *Ctx, fns []*Fn) *ssa.Function {
+			return uniqueFn(fns, func(f *Fn) bool { return hasCall(c, f.SSA, Call("sync.Map).Store")) })
+		}},
+		"latest.get": {"dagsync", "latestSyncHandler.getLatestSync", func(c *Ctx, fns []*Fn) *ssa.Function {
+			return uniqueFn(fns, func(f *Fn) bool { return hasCall(c, f.SSA, Call("sync.Map).Load")) })
+		}},
+		"dagsync.handle": {"dagsync", "handler.handle", func(c *Ctx, fns []*Fn) *ssa.Function {
+			return uniqueFn(fns, func(f *Fn) bool { return hasCall(c, f.SSA, Invoke("dagsync.Syncer.Sync")) })
+		}},
+		"dagsync.factory": {"dagsync", "handler.makeSyncer", func(c *Ctx, fns []*Fn) *ssa.Function {
+			return uniqueFn(fns, func(f *Fn) bool { return hasCall(c, f.SSA, Call("ipnisync.Sync).NewSyncer")) })
+		}},
+		"dagsync.limit": {"dagsync", "recursionLimit", func(c *Ctx, fns []*Fn) *ssa.Function {
+			return uniqueFn(fns, func(f *Fn) bool {
+				return f.SSA.Signature.Recv() == nil && f.SSA.Signature.Params().Len() == 1 && hasCall(c, f.SSA, Call("selector.RecursionLimitNone")) && hasCall(c, f.SSA, Call("selector.RecursionLimitDepth")) &&
+					!hasCall(c, f.SSA, Invoke("datamodel.Node.LookupByString"))
+			})
+		}},
+		"dagsync.rewrite": {"dagsync", "withRecursionLimit", func(c *Ctx, fns []*Fn) *ssa.Function {
+			return uniqueFn(fns, func(f *Fn) bool { return hasCall(c, f.SSA, Invoke("datamodel.MapIterator.Next")) })
+		}},
+		"dagsync.seg.reset": {"dagsync", "segmentedSync.reset", func(c *Ctx, fns []*Fn) *ssa.Function {
+			return uniqueFn(fns, func(f *Fn) bool {
+				if f.SSA.Signature.Recv() == nil || f.SSA.Signature.Params().Len() != 0 || f.SSA.Signature.Results().Len() != 0 {
+					return false
+				}
+				n := 0
+				instrs(f.SSA, func(in ssa.Instruction) {
+					if st, ok := in.(*ssa.Store); ok {
+						if cv, ok := st.Val.(*ssa.Const); ok && cv.IsNil() {
+							n++
+						}
+					}
+				})
+				return n == 2
+			})
+		}},
+		// ---- ipnisync ----
+		"ipnisync.request": {"dagsync/ipnisync", "Syncer.fetch", func(c *Ctx, fns []*Fn) *ssa.Function {
+			return uniqueFn(fns, func(f *Fn) bool {
+				return hasCall(c, f.SSA, Call("net/http.Client).Do")) && !strings.Contains(f.Name, "Publisher")
+			})
+		}},
+		"ipnisync.blockfetch": {"dagsync/ipnisync", "Syncer.fetchBlock", func(c *Ctx, fns []*Fn) *ssa.Function {
+			// the function that hands the request routine a callback which (directly or through a helper) opens the store for writing
+			req := c.Role("ipnisync.request")
+			return uniqueFn(fns, func(f *Fn) bool {
+				if req == nil || f.SSA == req {
+					return false
+				}
+				ok := false
+				instrs(f.SSA, func(in ssa.Instruction) {
+					ci, isCall := in.(ssa.CallInstruction)
+					if !isCall || ci.Common().StaticCallee() != req {
+						return
+					}
+					for _, a := range ci.Common().Args {
+						if mc, isMC := unwrapV(a).(*ssa.MakeClosure); isMC {
+							if len(c.CallsInl(mc.Fn.(*ssa.Function), Op("dyncall", "", Field("StorageWriteOpener", Any())), 2)) > 0 {
+								ok = true
+							}
+						}
+					}
+				})
+				return ok
+			})
+		}},
+		"ipnisync.walk": {"dagsync/ipnisync", "Syncer.walkFetch", func(c *Ctx, fns []*Fn) *ssa.Function {
+			return uniqueFn(fns, func(f *Fn) bool { return hasCall(c, f.SSA, Call("traversal.Progress).WalkMatching")) })
+		}},
+		// ---- pcache ----
+		"pcache.index": {"pcache", "apiToCacheInfo", func(c *Ctx, fns []*Fn) *ssa.Function {
+			return uniqueFn(fns, func(f *Fn) bool {
+				s := f.SSA.Signature
+				return s.Recv() == nil && s.Params().Len() == 1 && s.Results().Len() == 1 && strings.HasSuffix(s.Params().At(0).Type().String(), "model.ProviderInfo") &&
+					strings.HasSuffix(s.Results().At(0).Type().String(), "readProviderInfo")
+			})
+		}},
+		"pcache.load": {"pcache", "ProviderCache.loadReadOnly", func(c *Ctx, fns []*Fn) *ssa.Function {
+			return uniqueFn(fns, func(f *Fn) bool {
+				s := f.SSA.Signature
+				return s.Recv() != nil && s.Params().Len() == 0 && s.Results().Len() == 1 && hasCall(c, f.SSA, CallLike([]string{"atomic.Pointer[", ").Load["}))
+			})
+		}},
+		// ---- dhash ----
+		"dhash.multi": {"dhash", "sha256Multiple", func(c *Ctx, fns []*Fn) *ssa.Function {
+			return uniqueFn(fns, func(f *Fn) bool { return hasCall(c, f.SSA, Call("crypto/sha256.New")) })
+		}},
+		"dhash.derive": {"dhash", "deriveKey", func(c *Ctx, fns []*Fn) *ssa.Function {
+			// the callee whose result keys the cipher in the encryptor
+			var out *ssa.Function
+			for _, f := range fns {
+				for _, cs := range c.Calls(f.SSA, Call("crypto/aes.NewCipher")) {
+					if k := strip(cs.X.Args[0]); k.Op == "call" {
+						if call, ok := k.V.(*ssa.Call); ok {
+							if sc := call.Call.StaticCallee(); sc != nil && sc.Pkg == f.SSA.Pkg {
+								out = sc
+							}
 						}
 					}
 				}
-			})
-			return found
-		})
-	}},
-	// ---- dagsync ----
-	"latest.set": {"dagsync", "latestSyncHandler.setLatestSync", func(c *Ctx, fns []*Fn) *ssa.Function {
-		return uniqueFn(fns, func(f *Fn) bool { return hasCall(c, f.SSA, Call("sync.Map).Store")) })
-	}},
-	"latest.get": {"dagsync", "latestSyncHandler.getLatestSync", func(c *Ctx, fns []*Fn) *ssa.Function {
-		return uniqueFn(fns, func(f *Fn) bool { return hasCall(c, f.SSA, Call("sync.Map).Load")) })
-	}},
-	"dagsync.handle": {"dagsync", "handler.handle", func(c *Ctx, fns []*Fn) *ssa.Function {
-		return uniqueFn(fns, func(f *Fn) bool { return hasCall(c, f.SSA, Invoke("dagsync.Syncer.Sync")) })
-	}},
-	"dagsync.factory": {"dagsync", "handler.makeSyncer", func(c *Ctx, fns []*Fn) *ssa.Function {
-		return uniqueFn(fns, func(f *Fn) bool { return hasCall(c, f.SSA, Call("ipnisync.Sync).NewSyncer")) })
-	}},
-	"dagsync.limit": {"dagsync", "recursionLimit", func(c *Ctx, fns []*Fn) *ssa.Function {
-		return uniqueFn(fns, func(f *Fn) bool {
-			return f.SSA.Signature.Recv() == nil && f.SSA.Signature.Params().Len() == 1 && hasCall(c, f.SSA, Call("selector.RecursionLimitNone")) && hasCall(c, f.SSA, Call("selector.RecursionLimitDepth")) &&
-				!hasCall(c, f.SSA, Invoke("datamodel.Node.LookupByString"))
-		})
-	}},
-	"dagsync.rewrite": {"dagsync", "withRecursionLimit", func(c *Ctx, fns []*Fn) *ssa.Function {
-		return uniqueFn(fns, func(f *Fn) bool { return hasCall(c, f.SSA, Invoke("datamodel.MapIterator.Next")) })
-	}},
-	"dagsync.seg.reset": {"dagsync", "segmentedSync.reset", func(c *Ctx, fns []*Fn) *ssa.Function {
-		return uniqueFn(fns, func(f *Fn) bool {
-			if f.SSA.Signature.Recv() == nil || f.SSA.Signature.Params().Len() != 0 || f.SSA.Signature.Results().Len() != 0 {
-				return false
 			}
-			n := 0
-			instrs(f.SSA, func(in ssa.Instruction) {
-				if st, ok := in.(*ssa.Store); ok {
-					if cv, ok := st.Val.(*ssa.Const); ok && cv.IsNil() {
-						n++
+			return out
+		}},
+		// ---- ingest/schema ----
+		"schema.decode": {"ingest/schema", "decodeIPLDNode", func(c *Ctx, fns []*Fn) *ssa.Function {
+			return uniqueFn(fns, func(f *Fn) bool { return hasCall(c, f.SSA, Call("multicodec.LookupDecoder")) })
+		}},
+		"schema.adpayload": {"ingest/schema", "signaturePayload", func(c *Ctx, fns []*Fn) *ssa.Function {
+			return uniqueFn(fns, func(f *Fn) bool {
+				return f.SSA.Signature.Recv() == nil && hasCall(c, f.SSA, Call("go-multihash.Sum")) && hasCall(c, f.SSA, Call("go-multihash.Encode"))
+			})
+		}},
+		"schema.eppayload": {"ingest/schema", "extendedProviderSignaturePayload", func(c *Ctx, fns []*Fn) *ssa.Function {
+			return uniqueFn(fns, func(f *Fn) bool {
+				return f.SSA.Signature.Recv() == nil && hasCall(c, f.SSA, Call("go-multihash.Sum")) && !hasCall(c, f.SSA, Call("go-multihash.Encode"))
+			})
+		}},
+		// ---- metadata ----
+		"metadata.factory": {"metadata", "metadataContext.newTransport", func(c *Ctx, fns []*Fn) *ssa.Function {
+			return uniqueFn(fns, func(f *Fn) bool {
+				s := f.SSA.Signature
+				if s.Recv() == nil || s.Params().Len() != 1 || s.Results().Len() != 1 || !strings.HasSuffix(s.Results().At(0).Type().String(), "metadata.Protocol") {
+					return false
+				}
+				found := false
+				instrs(f.SSA, func(in ssa.Instruction) {
+					if _, ok := in.(*ssa.Lookup); ok {
+						found = true
 					}
-				}
+				})
+				return found
 			})
-			return n == 2
-		})
-	}},
-	// ---- ipnisync ----
-	"ipnisync.request": {"dagsync/ipnisync", "Syncer.fetch", func(c *Ctx, fns []*Fn) *ssa.Function {
-		return uniqueFn(fns, func(f *Fn) bool {
-			return hasCall(c, f.SSA, Call("net/http.Client).Do")) && !strings.Contains(f.Name, "Publisher")
-		})
-	}},
-	"ipnisync.blockfetch": {"dagsync/ipnisync", "Syncer.fetchBlock", func(c *Ctx, fns []*Fn) *ssa.Function {
-		return uniqueFn(fns, func(f *Fn) bool {
-			return hasCall(c, f.SSA, Op("dyncall", "", Field("StorageWriteOpener", Any())))
-		})
-	}},
-	"ipnisync.walk": {"dagsync/ipnisync", "Syncer.walkFetch", func(c *Ctx, fns []*Fn) *ssa.Function {
-		return uniqueFn(fns, func(f *Fn) bool { return hasCall(c, f.SSA, Call("traversal.Progress).WalkMatching")) })
-	}},
-	// ---- pcache ----
-	"pcache.index": {"pcache", "apiToCacheInfo", func(c *Ctx, fns []*Fn) *ssa.Function {
-		return uniqueFn(fns, func(f *Fn) bool {
-			s := f.SSA.Signature
-			return s.Recv() == nil && s.Params().Len() == 1 && s.Results().Len() == 1 && strings.HasSuffix(s.Params().At(0).Type().String(), "model.ProviderInfo") &&
-				strings.HasSuffix(s.Results().At(0).Type().String(), "readProviderInfo")
-		})
-	}},
-	"pcache.load": {"pcache", "ProviderCache.loadReadOnly", func(c *Ctx, fns []*Fn) *ssa.Function {
-		return uniqueFn(fns, func(f *Fn) bool {
-			s := f.SSA.Signature
-			return s.Recv() != nil && s.Params().Len() == 0 && s.Results().Len() == 1 && hasCall(c, f.SSA, CallLike([]string{"atomic.Pointer[", ").Load["}))
-		})
-	}},
-	// ---- dhash ----
-	"dhash.multi": {"dhash", "sha256Multiple", func(c *Ctx, fns []*Fn) *ssa.Function {
-		return uniqueFn(fns, func(f *Fn) bool { return hasCall(c, f.SSA, Call("crypto/sha256.New")) })
-	}},
-	"dhash.derive": {"dhash", "deriveKey", func(c *Ctx, fns []*Fn) *ssa.Function {
-		// the callee whose result keys the cipher in the encryptor
-		var out *ssa.Function
-		for _, f := range fns {
-			for _, cs := range c.Calls(f.SSA, Call("crypto/aes.NewCipher")) {
-				if k := strip(cs.X.Args[0]); k.Op == "call" {
-					if call, ok := k.V.(*ssa.Call); ok {
-						if sc := call.Call.StaticCallee(); sc != nil && sc.Pkg == f.SSA.Pkg {
-							out = sc
-						}
-					}
-				}
-			}
-		}
-		return out
-	}},
-	// ---- ingest/schema ----
-	"schema.decode": {"ingest/schema", "decodeIPLDNode", func(c *Ctx, fns []*Fn) *ssa.Function {
-		return uniqueFn(fns, func(f *Fn) bool { return hasCall(c, f.SSA, Call("multicodec.LookupDecoder")) })
-	}},
-	"schema.adpayload": {"ingest/schema", "signaturePayload", func(c *Ctx, fns []*Fn) *ssa.Function {
-		return uniqueFn(fns, func(f *Fn) bool {
-			return f.SSA.Signature.Recv() == nil && hasCall(c, f.SSA, Call("go-multihash.Sum")) && hasCall(c, f.SSA, Call("go-multihash.Encode"))
-		})
-	}},
-	"schema.eppayload": {"ingest/schema", "extendedProviderSignaturePayload", func(c *Ctx, fns []*Fn) *ssa.Function {
-		return uniqueFn(fns, func(f *Fn) bool {
-			return f.SSA.Signature.Recv() == nil && hasCall(c, f.SSA, Call("go-multihash.Sum")) && !hasCall(c, f.SSA, Call("go-multihash.Encode"))
-		})
-	}},
-	// ---- metadata ----
-	"metadata.factory": {"metadata", "metadataContext.newTransport", func(c *Ctx, fns []*Fn) *ssa.Function {
-		return uniqueFn(fns, func(f *Fn) bool {
-			s := f.SSA.Signature
-			if s.Recv() == nil || s.Params().Len() != 1 || s.Results().Len() != 1 || !strings.HasSuffix(s.Results().At(0).Type().String(), "metadata.Protocol") {
-				return false
-			}
-			found := false
-			instrs(f.SSA, func(in ssa.Instruction) {
-				if _, ok := in.(*ssa.Lookup); ok {
-					found = true
-				}
+		}},
+		// ---- rwriter ----
+		"rwriter.opts": {"rwriter", "getOpts", func(c *Ctx, fns []*Fn) *ssa.Function {
+			return uniqueFn(fns, func(f *Fn) bool {
+				s := f.SSA.Signature
+				return s.Recv() == nil && s.Params().Len() == 1 && s.Results().Len() == 2 && strings.HasSuffix(s.Results().At(0).Type().String(), "rwriter.config")
 			})
-			return found
-		})
-	}},
-	// ---- rwriter ----
-	"rwriter.opts": {"rwriter", "getOpts", func(c *Ctx, fns []*Fn) *ssa.Function {
-		return uniqueFn(fns, func(f *Fn) bool {
-			s := f.SSA.Signature
-			return s.Recv() == nil && s.Params().Len() == 1 && s.Results().Len() == 2 && strings.HasSuffix(s.Results().At(0).Type().String(), "rwriter.config")
-		})
-	}},
+		}},
+	}
 }
 
 // Role resolves a role to its function (nil if it cannot be found).
